@@ -590,6 +590,9 @@ var intSpecials = []int32{0, -1, 1, math.MinInt32, math.MaxInt32, math.MinInt32 
 // makeIntPool builds the key pool: specials, keys colliding modulo the current and the next
 // table sizes (found by search for the bit-mixed index), a dense run and random keys.
 func makeIntPool(r *vlib.Rand, typ string, capacity, size int, tw *twinSet) []int32 {
+	if capacity == pmap.ZeroCap {
+		capacity = 1 // what the constructor makes of 0
+	}
 	if capacity == 0 {
 		capacity = 101
 	}
@@ -1025,6 +1028,13 @@ func runHistory(c *vlib.Ctx, d *pmap.Descriptor, section string, i int, r *vlib.
 			capacity, lf = d.CtorCaps[v%5], d.CtorLFs[v/5]
 		}
 	}
+	if d.Name == pmap.TIntKeyMap && i%23 == 22 {
+		// the constructor documents capacity 0 (one bucket): growth starts from the smallest
+		// table there is (added after seeded change C12r7-2: Clear re-allocated the table at the
+		// capacity the constructor was GIVEN — zero)
+		capacity, lf = pmap.ZeroCap, d.CtorLFs[(i/23)%len(d.CtorLFs)]
+		c.Count("histories_with_constructor_capacity_0", 1)
+	}
 	h.in = d.New(capacity, lf)
 	none := int32(0)
 	if d.Name == pmap.TIntIntMap {
@@ -1034,6 +1044,8 @@ func runHistory(c *vlib.Ctx, d *pmap.Descriptor, section string, i int, r *vlib.
 	h.m = pmap.NewModel(d.Name, none)
 	if capacity == 0 {
 		h.ctor = "default (101, 0.75)"
+	} else if capacity == pmap.ZeroCap {
+		h.ctor = fmt.Sprintf("(0, %v)", lf)
 	} else {
 		h.ctor = fmt.Sprintf("(%d, %v)", capacity, lf)
 	}
